@@ -950,6 +950,8 @@ def _merged_is_applied_decisions(ctx, rule):
                 e = e.args[0]
             elif isinstance(e, ast.BoolOp):
                 e = e.values[0]
+            elif isinstance(e, ast.IfExp):
+                e = e.body
             elif isinstance(e, ast.BinOp):
                 e = e.left if not isinstance(e.left, (ast.List, ast.Constant)) else e.right
             else:
@@ -1364,6 +1366,14 @@ def renderers_forward_config(ctx, rule):
                          '%s takes a config (default: the module-wide DefaultConfig, colour on) but is called without the caller\'s: its output ignores use_color / the output stream / '
                          'the ignore options -- ANSI codes appear with colour disabled' % t[1].split(':')[1], c, nontrivial=False)
                 break
+    # ... and a function that was GIVEN a config never reads the module-wide default instead (what a helper called without it would do)
+    for fid, fn in sorted(repo.functions.items()):
+        if not fid.startswith(PP + ':') or 'config' not in [a.arg for a in fn.args.args + fn.args.kwonlyargs]:
+            continue
+        body_reads = [x for st in fn.body for x in ast.walk(st) if isinstance(x, ast.Name) and x.id == 'DefaultConfig' and isinstance(x.ctx, ast.Load)]
+        if body_reads:
+            ctx.inst(rule, fid, 'reads DefaultConfig in its body', False,
+                     'the function has the caller\'s config but takes a setting from the module-wide DefaultConfig (colour on, stdout): with colour disabled its output still carries ANSI codes', body_reads[0])
     if n < 20:
         raise AnalysisError('fewer than 20 config-taking helper calls found in the renderer module')
 
